@@ -24,9 +24,14 @@ def run_case(case):
     except Exception as e:  # construction is part of the property
         return Result(False, key='C11:construct', detail=f'SlidingWindowTracker({k}) raised {type(e).__name__}: {e}')
     eps = 2.0 ** -52
+    kinds = case.get('kinds') or ['float']
+    conv = {'float': float, 'int': lambda v: int(round(v)), 'f32': np.float32, 'f64': np.float64, 'i64': lambda v: np.int64(round(v)),
+            'bool': lambda v: bool(round(v) % 2)}
+    typed = [conv[kinds[i % len(kinds)]](v) for i, v in enumerate(vals)]
+    vals = [float(v) for v in typed]          # the values as supplied (after the caller's own conversion)
     for n in range(1, len(vals) + 1):
         try:
-            t.update(vals[n - 1])
+            t.update(typed[n - 1])
             got = {'mean': t.mean, 'var': t.var, 'std': t.std, 'get': t.get(), 'call': t()}
         except Exception as e:
             return Result(False, key='C11:use', detail=f'k={k}, update {n} raised {type(e).__name__}: {e}')
@@ -60,7 +65,10 @@ def cases(draw, kmax):
         vals = [b * scale for b in base]
     else:
         vals = draw(st.lists(st.one_of(gen.finite_float(1e6), st.integers(-5, 5).map(float)), min_size=n, max_size=n))
-    return {'k': k, 'values': vals}
+    # the supplied values are ints, floats and NumPy scalars in any mixture ("int or float")
+    kinds = draw(st.sampled_from([['float'], ['float'], ['int', 'float'], ['int', 'int', 'float', 'f32'], ['f32', 'float'], ['i64', 'f64', 'float'],
+                                  ['bool', 'float', 'int']]))
+    return {'k': k, 'values': vals, 'kinds': kinds}
 
 
 SUBS = {'window': run_case}
